@@ -27,13 +27,17 @@ ASSUMPTIONS = [
     "registries are only modified through the functions of base_registry.py",
 ]
 RULE = (
-    "histories over an alphabet of register / set_plugin operations (3 short names incl. one dotted, "
+    "histories over an alphabet of register / set_plugin operations (short names a, b, the dotted a.b and dotted names that "
+    "coincide with full names / full keys the registry holds, "
     "4 plugin classes of which two share a full name, class- and instance-style registration, 5 set targets); "
     "after every operation every key of the registry and of a fixed key universe is looked up and "
     "registered_plugins(full/short) is read, on the real code and on the Lean model; a history is non-trivial "
     "when it contains at least one accepted registration; distinct = distinct operation sequences. "
     "quick: seeded sample of the exhaustive length<=3 space + random length-12 histories + the public "
-    "register_data_io/register_project_io/register_megacomplex API; thorough: every history of length <= 4"
+    "register_data_io/register_project_io/register_megacomplex API; thorough: every history of length <= 4; "
+    "dispatch stream: after random register/set histories over the names a, b, yml, yaml with three recording plugin "
+    "classes all ten load_*/save_* convenience functions are called with an explicit and with an inferred format for every "
+    "name and an unknown one: exactly the resolved plugin's method must be called, unknown names must raise ValueError"
 )
 
 # ------------------------------------------------------------------------------------------
@@ -59,7 +63,13 @@ def alphabet(full: bool):
             ops.append(("add", k, c))
     for k, f in (("a", "m.A_a"), ("a", "m.B_a"), ("b", "m.A"), ("a", "nodot"), ("a.b", "m.A"), ("b", "m.B_b")):
         ops.append(("set", k, f))
+    # dotted short names that coincide with keys the registry may already hold (full names, full keys): they must be
+    # rejected like any other dotted name (seeded change C19-2: validation skipped for names already in the registry)
+    ops.append(("add", "m.A", "Z"))
+    ops.append(("addinst", ["m.A_a"], "Z"))
+    ops.append(("addinst", ["m.B_a"], "X"))
     if full:
+        ops.append(("add", "m.B", "X"))
         ops.append(("addinst", ["a", "b"], "Z"))
         ops.append(("addinst", ["a", "a.b", "b"], "X"))
     return ops
@@ -393,6 +403,10 @@ def public_api(ck):
                             keys = rng.sample(["a", "b", "c"], rng.randint(1, 2))
                             if rng.random() < 0.15:
                                 keys.insert(rng.randint(0, len(keys)), "a.b")
+                            elif rng.random() < 0.2:
+                                dotted = [x for x in known(full_names=True) if "." in x]
+                                if dotted:   # a dotted name the registry already knows (full name / full key)
+                                    keys.insert(rng.randint(0, len(keys)), rng.choice(dotted))
                             tag = rng.choice("XYZ")
                             mod, name = CLASSES[tag]
                             hist.append(["register", keys, tag])
@@ -402,7 +416,12 @@ def public_api(ck):
                                 ans_err = None
                             except ValueError:
                                 ans_err = "dotted"
-                            proc = keys[: keys.index("a.b")] if "a.b" in keys else keys
+                            dpos = [i for i, k in enumerate(keys) if "." in k]
+                            dk = keys[dpos[0]] if dpos else None
+                            proc = keys[: dpos[0]] if dpos else keys
+                            if dpos and ans_err is None:
+                                ck.violation("dotted-accepted", f"{which}: short name {dk!r} containing '.' was accepted",
+                                             {"api": which, "history": hist})
                             flags = []
                             wk = warned_keys(w, PluginOverwriteWarning)
                             for k in proc:
@@ -417,10 +436,10 @@ def public_api(ck):
                                     expect[k] = get(k)
                             if which == "megacomplex":
                                 # class-style: one `add` per key, uid = per registration
-                                for i, k in enumerate(proc + (["a.b"] if ans_err else [])):
+                                for i, k in enumerate(proc + ([dk] if ans_err else [])):
                                     lines.append(f"add {enc(k)} {enc(mod)} {enc(name)} {uid} ~")
                                     uid += 1
-                                    if k == "a.b":
+                                    if "." in k:
                                         impl.append("err dotted")
                                     else:
                                         impl.append(f"ok {bool_(flags[i])}")
@@ -498,6 +517,109 @@ def public_api(ck):
             yield which, hist, lines, impl
 
 
+# ------------------------------------------------------------------------------------------
+# dispatch of the load/save convenience functions (all ten) after register / set_plugin histories
+# ------------------------------------------------------------------------------------------
+def dispatch_stream(ck):
+    """The last clause of the statement: every load_*/save_* convenience function hands the call to exactly the plugin
+    the registry resolves for the *given* format name, or for the format inferred from the file name (the extension;
+    'yml' is read as 'yaml'; a folder as 'yaml' for results) — and raises ValueError when that name is unknown."""
+    import types
+    import xarray as xr
+    from glotaran.io.interface import DataIoInterface, ProjectIoInterface
+    from glotaran.plugin_system import data_io_registration as dreg
+    from glotaran.plugin_system import project_io_registration as preg
+    from glotaran.testing.plugin_system import monkeypatch_plugin_registry_data_io, monkeypatch_plugin_registry_project_io
+
+    calls = []
+
+    def rec(name, ret):
+        def f(self, *a, **kw):
+            calls.append((name, self))
+            return ret()
+        return f
+
+    ns = lambda: types.SimpleNamespace(source_path=None)
+    proj_methods = {m: rec(m, ns) for m in ("load_model", "save_model", "load_parameters", "save_parameters", "load_scheme",
+                                           "save_scheme", "load_result")}
+    proj_methods["save_result"] = rec("save_result", lambda: [])
+    data_methods = {"load_dataset": rec("load_dataset", lambda: xr.Dataset({"data": (("a",), [1.0])})),
+                    "save_dataset": rec("save_dataset", lambda: None)}
+    names = ["a", "yml", "yaml", "b"]
+    for which in ("project", "data"):
+        base, methods = (ProjectIoInterface, proj_methods) if which == "project" else (DataIoInterface, data_methods)
+        classes = [type(n, (base,), {"__module__": "m", **methods}) for n in ("P1", "P2", "P3")]
+        if which == "project":
+            cm, register, setp, get, known = (monkeypatch_plugin_registry_project_io, preg.register_project_io,
+                                              preg.set_project_plugin, preg.get_project_io, preg.known_project_formats)
+            funcs = [("load_model", lambda p, f: preg.load_model(p, format_name=f), True),
+                     ("save_model", lambda p, f: preg.save_model(ns(), p, format_name=f, allow_overwrite=True), False),
+                     ("load_parameters", lambda p, f: preg.load_parameters(p, format_name=f), True),
+                     ("save_parameters", lambda p, f: preg.save_parameters(ns(), p, format_name=f, allow_overwrite=True), False),
+                     ("load_scheme", lambda p, f: preg.load_scheme(p, format_name=f), True),
+                     ("save_scheme", lambda p, f: preg.save_scheme(ns(), p, format_name=f, allow_overwrite=True), False),
+                     ("load_result", lambda p, f: preg.load_result(p, format_name=f), True),
+                     ("save_result", lambda p, f: preg.save_result(ns(), p, format_name=f, allow_overwrite=True), False)]
+        else:
+            cm, register, setp, get, known = (monkeypatch_plugin_registry_data_io, dreg.register_data_io,
+                                              dreg.set_data_plugin, dreg.get_data_io, dreg.known_data_formats)
+            funcs = [("load_dataset", lambda p, f: dreg.load_dataset(p, format_name=f), True),
+                     ("save_dataset", lambda p, f: dreg.save_dataset(xr.Dataset({"data": (("a",), [1.0])}), p, format_name=f,
+                                                                      allow_overwrite=True), False)]
+        for hi in range(ck.n(25, 400)):
+            rng = ck.rng
+            hist = []
+            with cm({}, create_new_registry=True), warnings.catch_warnings():
+                warnings.simplefilter("ignore")
+                for _ in range(rng.randint(1, 5)):
+                    if rng.random() < 0.75 or not known():
+                        ks = rng.sample(names, rng.randint(1, 2))
+                        ci = rng.randrange(3)
+                        register(ks)(classes[ci])
+                        hist.append(["register", ks, f"P{ci + 1}"])
+                    else:
+                        fulls = [x for x in known(full_names=True) if "." in x]
+                        k, f = rng.choice(names), rng.choice(fulls)
+                        setp(k, f)
+                        hist.append(["set", k, f])
+                ck.case(("dispatch", which, repr(hist)), True)
+                ck.count(f"stream:dispatch-{which}")
+                with tempfile.TemporaryDirectory() as td:
+                    for fmt in names + ["zz"]:
+                        path = Path(td) / f"f.{fmt}"
+                        path.write_text("x")
+                        inferred = "yaml" if fmt == "yml" else fmt        # the documented inference from the extension
+                        for fname, call, _is_load in funcs:
+                            for given in (fmt, None):
+                                use = given if given is not None else inferred
+                                calls.clear()
+                                ck.oracle_evals += 1
+                                case = {"api": which, "history": hist, "function": fname, "file": f"f.{fmt}", "format_name": given}
+                                try:
+                                    call(path, given)
+                                    err = None
+                                except ValueError as e:
+                                    err = e
+                                except Exception as e:     # anything else is not the documented behaviour
+                                    ck.violation("dispatch-error", f"{which}.{fname}(f.{fmt}, format_name={given!r}) raised {e!r}", case)
+                                    continue
+                                if use in known():
+                                    want = get(use)
+                                    if err is not None or [c for c in calls] != [(fname, want)]:
+                                        ck.count("dispatch:wrong")
+                                        ck.violation("dispatch-wrong-plugin", f"{which}.{fname}(f.{fmt}, format_name={given!r}) did not "
+                                                     f"dispatch to the plugin the registry resolves for {use!r} "
+                                                     f"(called: {[(n, type(o).__name__) for n, o in calls]}, error: {err!r})", case)
+                                    else:
+                                        ck.count("dispatch:resolved-plugin-called")
+                                else:
+                                    if err is None or calls:
+                                        ck.violation("dispatch-unknown-format-accepted", f"{which}.{fname}(f.{fmt}, format_name={given!r}): "
+                                                     f"format {use!r} is unknown but no ValueError was raised", case)
+                                    else:
+                                        ck.count("dispatch:unknown-format-rejected")
+
+
 def run(ck):
     # corpus first
     corpus = [c["history"] for c in core.load_corpus(PROP)]
@@ -549,6 +671,7 @@ def run(ck):
             which, hist = metas[owner[i]]
             ck.disagree("model-vs-public-api", f"{which}: after {all_lines[i]!r}: implementation {a!r}, model {b!r}",
                         {"api": which, "history": hist})
+    dispatch_stream(ck)
     ck.sample({"history": [["addinst", ["a"], "X"], ["addinst", ["a"], "Z"], ["set", "a", "m.B_a"]],
                "observed_after_each_op": "registered_plugins(full/short) + lookup of every key"})
     if metas:
